@@ -680,6 +680,7 @@ fn apply_mut(nodes: &[Node], m: &Mut) -> Vec<Node> {
             J::Trans(a, b) => *(if *k == 0 { a } else { b }) = *c,
             J::Sym(a) => *a = *c,
             J::Congr(a, _, d) => *(if *k == 0 { a } else { d }) = *c,
+            J::Unmodelled(_, ch, _) => ch[*k] = *c,
             _ => {}
         },
     }
@@ -711,8 +712,26 @@ fn hook_mut(nodes: &[Node], m: &Mut) -> VerifProofMutation {
 
 /// alterations that leave a step unjustified whatever the unmodelled steps do: a used rule or the
 /// function of a used MergeFn step is gone; a Rule step lost a premise; a Congr index is out of range
-fn certainly_unjustified(e: &Edit, m: &Mut, nodes: &[Node]) -> bool {
+/// A MergeFn step merges two values of ONE row: its two premises must be reflexive views
+/// f(k.., old) and f(k.., new) of the same function under the same key (proof_format.rs, doc of
+/// Justification::MergeFn). False = the step is unjustified whatever the merge function computes.
+fn mergefn_premises_fit(nodes: &[Node], i: usize) -> bool {
+    let J::Unmodelled("MergeFn", ch, _) = &nodes[i].j else {
+        return true;
+    };
+    let (a, b) = (&nodes[ch[0]], &nodes[ch[1]]);
+    if a.l != a.r || b.l != b.r {
+        return false;
+    }
+    match (&a.r, &b.r) {
+        (Tm::App(f, x), Tm::App(g, y)) => f == g && !x.is_empty() && x.len() == y.len() && x[..x.len() - 1] == y[..y.len() - 1],
+        _ => false,
+    }
+}
+
+fn certainly_unjustified(e: &Edit, m: &Mut, nodes: &[Node], mutated: &[Node]) -> bool {
     match (e, m) {
+        (Edit::None, Mut::SetChild(i, _, _)) => !mergefn_premises_fit(mutated, *i),
         (Edit::RemoveRule(n), Mut::None) => nodes.iter().any(|x| matches!(&x.j, J::Rule { name, .. } if name == n)),
         (Edit::RemoveFunction(f), Mut::None) => nodes.iter().any(|x| matches!(&x.j, J::Unmodelled("MergeFn", _, g) if g == f)),
         (Edit::None, Mut::DropPrem(..)) => true,
@@ -880,6 +899,10 @@ fn bump(m: &mut BTreeMap<String, usize>, k: &str) {
 fn classify_reject(msg: &str) -> &'static str {
     if msg.starts_with("PANIC") {
         "checker-panic"
+    } else if msg.contains("MergeFn error") {
+        "mergefn"
+    } else if msg.contains("Could not find function") {
+        "function-not-found"
     } else if msg.contains("Could not find rule") {
         "rule-not-found"
     } else if msg.contains("Fiat proof claims") {
@@ -1244,6 +1267,27 @@ fn run_program(
                 }
             }
         }
+        // targeted: a MergeFn step whose old / new premise is re-pointed at the proof of ANOTHER row
+        // of the same function (kept in full: they are few)
+        let mut merge_redirects: Vec<Mut> = Vec::new();
+        for (i, n) in nodes.iter().enumerate() {
+            if let J::Unmodelled("MergeFn", ch, _) = &n.j {
+                let head = match &nodes[ch[0]].r {
+                    Tm::App(f, _) => f.clone(),
+                    _ => continue,
+                };
+                for (c, x) in nodes.iter().enumerate() {
+                    let same_fn = matches!(&x.r, Tm::App(f, _) if *f == head) && x.l == x.r;
+                    if same_fn && !reaches(&nodes, c, i) {
+                        for k in 0..2 {
+                            if ch[k] != c && merge_redirects.len() < 40 {
+                                merge_redirects.push(Mut::SetChild(i, k, c));
+                            }
+                        }
+                    }
+                }
+            }
+        }
         while targeted.len() > 6 {
             let k = rng.below(targeted.len());
             targeted.swap_remove(k);
@@ -1253,7 +1297,7 @@ fn run_program(
             let k = rng.below(node_muts.len());
             node_muts.swap_remove(k);
         }
-        for m in node_muts.into_iter().chain(targeted) {
+        for m in node_muts.into_iter().chain(targeted).chain(merge_redirects) {
             cands.push((Edit::None, m));
         }
         let mut obs: Vec<(Edit, Mut, bool)> = vec![(Edit::None, Mut::None, true)];
@@ -1272,13 +1316,15 @@ fn run_program(
                     Edit::RemoveFunction(_) => "remove-merge-function",
                     _ => "remove-action",
                 }
+            } else if matches!(&m, Mut::SetChild(i, _, _) if matches!(&nodes[*i].j, J::Unmodelled("MergeFn", ..))) {
+                "redirect-merge-premise"
             } else {
                 m.kind()
             };
             bump(&mut st.mut_hist, kind);
             let mutated = apply_mut(&nodes, &m);
             let mut tw = twin_verdict(&cp, &mutated, rooti, &e);
-            if tw == Tw::Unknown && certainly_unjustified(&e, &m, &nodes) {
+            if tw == Tw::Unknown && certainly_unjustified(&e, &m, &nodes, &mutated) {
                 // outside the modelled fragment only the alterations whose rejection does not
                 // depend on unmodelled steps are judged
                 tw = Tw::Reject;
@@ -1626,6 +1672,64 @@ fn generate(seed: u64, index: u64) -> (String, Vec<Vec<String>>, &'static str) {
     (text, facts, fl)
 }
 
+/// a function g : i64 x i64 -> i64 with a merge that computes a new value; some keys are written
+/// twice (with different values: the same value twice is recorded finding P5), the other keys of
+/// the grid carry values equal to one of those; facts are conjunctions over several keys
+fn generate_merge2(seed: u64, index: u64) -> (String, Vec<Vec<String>>) {
+    let mut r = Rng::for_case(seed ^ 0x6d32, index);
+    let kind = r.below(3);
+    let merge = ["(+ (min old new) 10)", "(+ (max old new) 10)", "(+ old new)"][kind];
+    let eval = |a: i64, b: i64| match kind {
+        0 => a.min(b) + 10,
+        1 => a.max(b) + 10,
+        _ => a + b,
+    };
+    let mut text = format!("(datatype S (K0) (K1) (F0 S))\n(function g (i64 i64) i64 :merge {merge})\n");
+    if r.chance(1, 2) {
+        text.push_str("(union (K0) (K1))\n(F0 (K0))\n");
+    }
+    let keys: Vec<(i64, i64)> = vec![(1, 2), (1, 3), (2, 2), (2, 3)];
+    let lo = 3 + r.below(4) as i64;
+    let hi = lo + 1 + r.below(5) as i64;
+    let mut val: Vec<i64> = Vec::new();
+    let twice = r.below(keys.len());
+    let twice2 = if r.chance(1, 2) { Some(r.below(keys.len())) } else { None };
+    for (k, (a, b)) in keys.iter().enumerate() {
+        if k == twice || Some(k) == twice2 {
+            let (x, y) = if r.chance(1, 2) { (lo, hi) } else { (hi, lo) };
+            text.push_str(&format!("(set (g {a} {b}) {x})\n(set (g {a} {b}) {y})\n"));
+            let mut v = eval(x, y);
+            if r.chance(1, 3) {
+                // a third write: nested MergeFn steps
+                let z = hi + 1 + r.below(3) as i64;
+                text.push_str(&format!("(set (g {a} {b}) {z})\n"));
+                v = eval(v, z);
+            }
+            val.push(v);
+        } else {
+            let v = *r.pick(&[lo, lo, hi, lo + 20]);
+            text.push_str(&format!("(set (g {a} {b}) {v})\n"));
+            val.push(v);
+        }
+    }
+    text.push_str("(run 1)\n");
+    let fact = |k: usize, v: i64| format!("(= (g {} {}) {v})", keys[k].0, keys[k].1);
+    let mut facts: Vec<Vec<String>> = Vec::new();
+    // every key alone, the merged key with each other key, everything together, and false ones
+    for k in 0..keys.len() {
+        facts.push(vec![fact(k, val[k])]);
+    }
+    for k in 0..keys.len() {
+        if k != twice {
+            facts.push(vec![fact(twice, val[twice]), fact(k, val[k])]);
+        }
+    }
+    facts.push((0..keys.len()).map(|k| fact(k, val[k])).collect());
+    facts.push(vec![fact(twice, lo)]);
+    facts.push(vec![fact(twice, val[twice]), fact((twice + 1) % keys.len(), val[(twice + 1) % keys.len()] + 1)]);
+    (text, facts)
+}
+
 fn main() {
     let o = verif_harness::parse_opts();
     // the engine's own panics are observations; keep the default hook quiet
@@ -1671,6 +1775,17 @@ fn main() {
             if f.extension().map(|e| e == "json").unwrap_or(false) {
                 run_json(&f, &mut st, &mut viols, &mut w, "corpus");
             }
+        }
+        // functions of arity 2 with value-creating merges, several keys that differ in one input
+        // column and carry equal values: proofs with MergeFn steps (link-only for the Gallina model)
+        let nmerge = if o.thorough { 200 } else { 14 };
+        for i in 0..nmerge {
+            let (text, facts) = generate_merge2(o.seed, i as u64);
+            bump(&mut st.prog_hist, "flavour:merge2");
+            if o.extra.iter().any(|a| a == "--dump") {
+                eprintln!(";; merge2 case {i}\n{text};; facts: {facts:?}");
+            }
+            run_program(&text, &facts, o.seed.wrapping_mul(7919) ^ i as u64, max_muts, &mut st, &mut viols, &mut w, "generated");
         }
         let nprog = if o.thorough { 1500 } else { 90 };
         for i in 0..nprog {
